@@ -5,7 +5,7 @@
    the model keeps one association list and implements dict get / set / del on it.
    Randomness (create_id: sha256 over 32 random bytes) enters as the [fresh] field of the
    issuing operations: the value the real code generated. *)
-From Coq Require Import String Ascii List Bool ZArith NArith.
+From Coq Require Import String Ascii List Bool ZArith NArith DecimalString.
 From Verif Require Import Base.Str Base.Percent.
 Import ListNotations.
 Open Scope string_scope.
@@ -239,9 +239,12 @@ Fixpoint remove_first (x : string) (l : list string) : list string :=
   | y :: r => if String.eqb x y then r else y :: remove_first x r
   end.
 
-(* store(ident, name_id) with name_id.text = t *)
+Definition is_empty_str (s : string) : bool := match s with EmptyString => true | _ => false end.
+Definition nonempty (s : string) : bool := negb (is_empty_str s).
+
+(* store(ident, name_id) with name_id.text = t; "[v for v in self.db[ident].split(' ') if v]" *)
 Definition store_db (d : db) (u : string) (n : nameid) (t : string) : db :=
-  let val := match lookup u d with Some v => elements v | None => [] end in
+  let val := match lookup u d with Some v => filter nonempty (elements v) | None => [] end in
   set t u (set u (join " " (val ++ [code n])) d).
 
 Definition store (d : db) (u : string) (n : nameid) : db * out :=
@@ -262,7 +265,12 @@ Definition remove_remote (d : db) (n : nameid) : res db :=
           | Some v =>
               let vals := elements v in
               if mem (code n) vals
-              then Ok (del t (set id (join " " (remove_first (code n) vals)) d))
+              then
+                let rest := remove_first (code n) vals in
+                Ok (del t (match rest with
+                           | [] => del id d                       (* "if vals: ... else: del self.db[_id]" *)
+                           | _ => set id (join " " rest) d
+                           end))
               else Err ValueErr
           | None => Ok (del t d)
           end
@@ -279,6 +287,7 @@ Definition nid_matches (n : nameid) (spq_arg nq_arg : option string) : bool :=
   else if negb (truthy (spq n)) && negb (truthy spq_arg) then nq_ok
   else false.
 
+(* match_local_id: "if nid.format != NAMEID_FORMAT_PERSISTENT: continue" *)
 Fixpoint first_match (cs : list string) (spq_arg nq_arg : option string) : res (option nameid) :=
   match cs with
   | [] => Ok None
@@ -286,7 +295,7 @@ Fixpoint first_match (cs : list string) (spq_arg nq_arg : option string) : res (
       match decode c with
       | None => Err ValueErr
       | Some n =>
-          if eq_arg (fmt n) (Some NF_TRANSIENT) then first_match r spq_arg nq_arg
+          if negb (eq_arg (fmt n) (Some NF_PERSISTENT)) then first_match r spq_arg nq_arg
           else if nid_matches n spq_arg nq_arg then Ok (Some n)
           else first_match r spq_arg nq_arg
       end
@@ -298,7 +307,25 @@ Definition match_local_id (d : db) (u : string) (spq_arg nq_arg : option string)
   | Some v => first_match (elements v) spq_arg nq_arg
   end.
 
-Definition is_empty_str (s : string) : bool := match s with EmptyString => true | _ => false end.
+(* before 9057a062: only transient identifiers were skipped (kept for ModelV0 and the class-2 guard) *)
+Fixpoint first_match_v0 (cs : list string) (spq_arg nq_arg : option string) : res (option nameid) :=
+  match cs with
+  | [] => Ok None
+  | c :: r =>
+      match decode c with
+      | None => Err ValueErr
+      | Some n =>
+          if eq_arg (fmt n) (Some NF_TRANSIENT) then first_match_v0 r spq_arg nq_arg
+          else if nid_matches n spq_arg nq_arg then Ok (Some n)
+          else first_match_v0 r spq_arg nq_arg
+      end
+  end.
+
+Definition match_local_id_v0 (d : db) (u : string) (spq_arg nq_arg : option string) : res (option nameid) :=
+  match lookup u d with
+  | None => Ok None
+  | Some v => first_match_v0 (elements v) spq_arg nq_arg
+  end.
 
 (* the text get_nameid stores for the generated id *)
 Definition final_text (cfg : config) (f fresh : string) : string :=
@@ -495,6 +522,19 @@ Definition final_state (cfg : config) (d : db) (ops : list op) : db :=
 
 (* ------------------------------------------------------------------ Eptid *)
 
+(* len(str) of a Python str given as its UTF-8 bytes: bytes that are not continuation bytes 10xxxxxx *)
+Definition is_cont (c : ascii) : bool :=
+  match c with Ascii _ _ _ _ _ _ b6 b7 => b7 && negb b6 end.
+
+Fixpoint ulen (s : string) : nat :=
+  match s with
+  | EmptyString => 0
+  | String c r => if is_cont c then ulen r else S (ulen r)
+  end.
+
+(* f"{n}" for a non-negative int *)
+Definition dec (n : nat) : string := NilEmpty.string_of_uint (Nat.to_uint n).
+
 Section Eptid.
   Variable md5hex : string -> string.     (* hashlib.md5(...).hexdigest() *)
 
@@ -504,22 +544,33 @@ Section Eptid.
   Definition eptid_make (secret idp sp : string) (args : list string) : string :=
     join "!" [idp; sp; md5hex (concat_all args ++ sp ++ secret)].
 
-  (* the cache key of Eptid.get: "__".join([sp, args[0]]) *)
-  Definition eptid_key (sp : string) (args : list string) : string :=
-    sp ++ "__" ++ hd "" args.
-
   Record ecall := { c_idp : string; c_sp : string; c_args : list string }.
 
-  Definition eptid_get (secret : string) (c : db) (x : ecall) : db * string :=
-    let k := eptid_key (c_sp x) (c_args x) in
-    match lookup k c with
-    | Some v => (c, v)
-    | None => let v := eptid_make secret (c_idp x) (c_sp x) (c_args x) in (set k v c, v)
-    end.
+  (* the cache key of Eptid.get: "__".join(f"{len(part)}:{part}" for part in (idp, sp) + args) *)
+  Definition key_part (p : string) : string := dec (ulen p) ++ ":" ++ p.
+  Definition eptid_key (x : ecall) : string := join "__" (map key_part (c_idp x :: c_sp x :: c_args x)).
 
-  Fixpoint eptid_run (secret : string) (c : db) (h : list ecall) : list string :=
-    match h with
-    | [] => []
-    | x :: r => let '(c', v) := eptid_get secret c x in v :: eptid_run secret c' r
-    end.
+  (* before 331c8f06: "__".join([sp, args[0]]) *)
+  Definition eptid_key_v0 (x : ecall) : string := c_sp x ++ "__" ++ hd "" (c_args x).
+
+  Section Get.
+    Variable keyf : ecall -> string.
+
+    Definition eptid_get_gen (secret : string) (c : db) (x : ecall) : db * string :=
+      let k := keyf x in
+      match lookup k c with
+      | Some v => (c, v)
+      | None => let v := eptid_make secret (c_idp x) (c_sp x) (c_args x) in (set k v c, v)
+      end.
+
+    Fixpoint eptid_run_gen (secret : string) (c : db) (h : list ecall) : list string :=
+      match h with
+      | [] => []
+      | x :: r => let '(c', v) := eptid_get_gen secret c x in v :: eptid_run_gen secret c' r
+      end.
+  End Get.
+
+  Definition eptid_get := eptid_get_gen eptid_key.
+  Definition eptid_run := eptid_run_gen eptid_key.
+  Definition eptid_run_v0 := eptid_run_gen eptid_key_v0.
 End Eptid.
